@@ -478,6 +478,13 @@ def _run(case, tree, acc):
             u = ctx.add_expr(formula, with_ops=True)
         else:
             u = ctx.add_expr(formula)
+            # the documented synonyms
+            if ctx.to_bdd(formula) != u or \
+                    ctx.bdds_from('TRUE', formula)[1] != u:
+                acc.ev()
+                acc.violation('to_bdd_or_bdds_from_differs_from_add_expr',
+                              case, detail=dict(formula=formula))
+                return
     except Exception as exc:  # noqa
         import traceback
         tb = traceback.extract_tb(exc.__traceback__)
